@@ -419,6 +419,7 @@ func (e *Engine) evalEmitOnce(runs []emitRun) []emitObl {
 		}
 	}
 	obls = append(obls, luaDefinesObligations(luaDecs, luaDefs)...)
+	obls = append(obls, testRepeatObligations(runs)...)
 	// cross-cell predicates
 	byID := map[string]*emitRun{}
 	for i := range runs {
